@@ -28,7 +28,9 @@ RULE = ("One run = one polyhedron (ConvexPolyhedron or Polyhedron; convex, trian
         "produce -0.0 and exponent notation) exported 1-6 times through coxeter.io.to_* or "
         "Polyhedron.save to str / pathlib.Path / os.PathLike names on the simulated filesystem, "
         "with 0-2 scripted faults placed inside exports (k-th open/write/close/remove/read of "
-        "that export) and a randomised buffer size; the first 7*2*2 run indices are a "
+        "that export) and a randomised buffer size; a fifth of the runs mutate the polyhedron "
+        "(setters, diagonalize_inertia, merge_faces, sort_faces) before and between exports, "
+        "after which the oracle re-reads the shape's geometry; the first 7*2*2 run indices are a "
         "stratified prefix (format x class x faulted). A run is non-trivial if at least one "
         "export completed and was parsed back or at least one fault fired; distinct = distinct "
         "sha256 digests of the full event log (environment calls, byte counts, faults, "
